@@ -192,5 +192,11 @@ func isNextOnNewLine(t1, t2 Token) bool {
 	// If the first token (incl line breaks) ends
 	// on a line earlier than the next token,
 	// then the second token is on a new line
-	return t1.Line+t1.NumLineBreaks()-t1.envBreaks < t2.Line
+	if t1.Line+t1.NumLineBreaks()-t1.envBreaks < t2.Line {
+		return true
+	}
+
+	// A token that starts on an earlier line than the previous one cannot
+	// be on its line either (tokens of a snippet defined further up)
+	return t2.Line < t1.Line
 }
